@@ -1,6 +1,7 @@
 package h
 
 import (
+	"bytes"
 	"crypto/sha1"
 	"encoding/json"
 	"flag"
@@ -499,8 +500,7 @@ func Main(prop, level string, assumptions []string, run func(c *Check), replay R
 	for _, f := range merged.Found {
 		sum := sha1.Sum([]byte(f.Sig))
 		path := filepath.Join(*replays, fmt.Sprintf("%s-%x.json", prop, sum[:6]))
-		raw, _ := json.MarshalIndent(&ReplayFile{Property: prop, Tier: *tier, Found: *f}, "", " ")
-		os.WriteFile(path, raw, 0o644)
+		os.WriteFile(path, marshalIndent(&ReplayFile{Property: prop, Tier: *tier, Found: *f}), 0o644)
 		if _, ok := knownSig[f.Sig]; ok {
 			fmt.Printf("KNOWN-FINDING: property=%s %s (seen %d times; replay=%s)\n", prop, f.Sig, f.Count, path)
 			knownSeen = append(knownSeen, f.Sig)
@@ -572,7 +572,7 @@ func Main(prop, level string, assumptions []string, run func(c *Check), replay R
 		"wall_s":      time.Since(start).Seconds(),
 		"violations":  nviol,
 	}
-	raw, _ := json.MarshalIndent(ev, "", " ")
+	raw := marshalIndent(ev)
 	os.MkdirAll(filepath.Dir(*evidence), 0o755)
 	if err := os.WriteFile(*evidence, raw, 0o644); err != nil {
 		vrt.MachineryFault("write evidence: %v", err)
@@ -583,6 +583,16 @@ func Main(prop, level string, assumptions []string, run func(c *Check), replay R
 	if nviol > 0 {
 		os.Exit(1)
 	}
+}
+
+// marshalIndent is json.MarshalIndent without HTML escaping (signatures contain "->").
+func marshalIndent(v any) []byte {
+	var buf bytes.Buffer
+	enc := json.NewEncoder(&buf)
+	enc.SetEscapeHTML(false)
+	enc.SetIndent("", " ")
+	enc.Encode(v)
+	return buf.Bytes()
 }
 
 func firstLines(s string, n int) string {
